@@ -432,6 +432,8 @@ def _finding_of(w):
             return 'mrh-solve-slope'
         return None
     if c == 'image-solve-focus':
+        if w.get('launch_changed'):
+            return 'solve-changes-launch'     # e.g. imageFNO aperture and an image surface with power
         return 'image-solve-slope' if w.get('same_medium') is False else None
     if c == 'pickup-unsatisfied':
         return 'update-order' if (w.get('stage') == 'update' and w.get('dependency')) else None
